@@ -144,20 +144,30 @@ def apply_inv_delta(source_entries, changes):
     return ent
 
 
+def name_collision(ent):
+    names = {}
+    for f, (par, name, _k) in ent.items():
+        if (par, name) in names:
+            return "two entries named %r in %r: %r and %r" % (name, par, names[(par, name)], f)
+        names[(par, name)] = f
+    return None
+
+
 def valid_inventory(ent):
-    """None if `ent` (fid -> parent, name, kind) is a tree, else a description."""
+    """None if every entry of `ent` (fid -> parent, name, kind) hangs off a directory that is
+    in the tree, else a description.  (Two entries of one name - a filtered result that
+    moves an entry onto a path whose old occupant is outside the filter - are counted by
+    the caller, not judged: the property speaks of the parents that are needed.)"""
     roots = [f for f, e in ent.items() if e[0] is None]
     if len(roots) != 1 and ent:
         return "roots: %r" % roots
-    names = {}
     for f, (par, name, _k) in ent.items():
         if par is None:
             continue
         if par not in ent:
             return "entry %r (%r) has a parent %r that is not in the tree" % (f, name, par)
-        if (par, name) in names:
-            return "two entries named %r in %r: %r and %r" % (name, par, names[(par, name)], f)
-        names[(par, name)] = f
+        if ent[par][2] not in ("directory", None):
+            return "entry %r (%r) has a parent %r that is a %s" % (f, name, par, ent[par][2])
     for f in ent:
         seen = set()
         cur = f
@@ -230,6 +240,12 @@ def compare_pair(ctx, a, b, filters, plan_names, is_wt, guards=frozenset()):
                         ref = {c for c in ref if not (c[0] == "u" and a.is_versioned(c[1]))}
                     if inc and impl == "InterCHKRevisionTree" and "chk_unchanged_old_path" in guards:
                         got, ref = blank_unchanged_old_path(got), blank_unchanged_old_path(ref)
+                    if spec is not None and "generic_filter_half_record" in guards:
+                        broken = {c[1] for c in ref if c[0] == "v" and not c[4][0] and c[2][0] is not None}
+                        if broken:
+                            sim.probe("generic_half_record")
+                            got = {c for c in got if not (c[0] == "v" and c[1] in broken)}
+                            ref = {c for c in ref if not (c[0] == "v" and c[1] in broken)}
                     if spec is not None and inc:
                         # unchanged entries outside the filter (parents that were "evaluated for
                         # changes too") carry no information: one implementation lists them
@@ -243,7 +259,10 @@ def compare_pair(ctx, a, b, filters, plan_names, is_wt, guards=frozenset()):
                         differed = True
                     # a (filtered) result must be applicable to the source
                     if not inc:
-                        bad = valid_inventory(apply_inv_delta(src_entries, got))
+                        applied = apply_inv_delta(src_entries, got)
+                        if spec is not None and name_collision(applied):
+                            sim.probe("filtered_name_collision")
+                        bad = valid_inventory(applied)
                         if bad:
                             ctx.fail("invalid_delta", impl, "applying the result to the source does not give a tree: %s; result %r" % (bad, _short(got, 8)), params)
         # unfiltered changes applied to the source snapshot give the target snapshot
